@@ -123,14 +123,16 @@ class Endpoint(SubCheck):
 
     def __init__(self, svg, tier, seed):
         self.svg = svg
-        rots = ROTS if tier == "thorough" else ROTS[:]
-        facts = FACT
-        dirs = DIRS if tier == "thorough" else DIRS
-        mags = MAGS
-        self.p = Product(STARTS, dirs, mags, facts, facts, rots, FLAGS)
+        rots, facts, dirs, mags, starts = ROTS, FACT, DIRS, MAGS, STARTS
+        if tier == "thorough":
+            dirs = list(range(0, 360, 15))
+            rots = ROTS + [15.0, 60.0, 120.0, 225.0, -135.0, 585.0, -100.0, 1e-7, 89.999999, 3600.0]
+            facts = FACT + [0.25, 0.75, 1.5, 5.0, 100.0]
+            starts = STARTS + [(-7.5, 11.25)]
+        self.p = Product(starts, dirs, mags, facts, facts, rots, FLAGS)
         self.entries = ENTRIES + (["arc-complex", "arc-kw"] if tier == "thorough" else [])
         self.seed = seed
-        self.bounds = dict(starts=len(STARTS), dirs=len(dirs), mags=len(mags), factors=len(facts), rotations=len(rots),
+        self.bounds = dict(starts=len(starts), dirs=len(dirs), mags=len(mags), factors=len(facts), rotations=len(rots),
                            flags=4, entries=self.entries)
 
     def size(self):
